@@ -411,7 +411,7 @@ impl<'a> Driver<'a> {
         let mut state = ctl.state();
         self.emit(&StepRec {
             t: "reset".to_string(), run: self.run_no, i: 0, actor: "env".to_string(), site: "E_Init".to_string(), arg: 0,
-            next: "".to_string(), narg: 0, op: idle_op(), ret: RetRec { st: -1, v: -1, exp: -1, ..Default::default() }, ev: Vec::new(), truth: Vec::new(),
+            next: "".to_string(), narg: 0, op: idle_op(), ret: RetRec { st: -1, v: -1, exp: -1, ..Default::default() }, ev: Vec::new(), truth: Vec::new(), freq: scenario.freq.iter().map(|(key, count)| vec![*key, *count as i64]).collect(),
             pc: ctl.pcs(), s: state.clone(), cfg: Some(cfg.clone()),
         });
 
@@ -455,7 +455,7 @@ impl<'a> Driver<'a> {
                         self.emit(&StepRec {
                             t: "note".to_string(), run: self.run_no, i: step_no, actor: step.a.clone(), site: "E_Infeasible".to_string(), arg: 0,
                             next: at.unwrap_or_default(), narg: 0, op: idle_op(), ret: RetRec { st: -1, v: -1, exp: -1, ..Default::default() },
-                            ev: Vec::new(), truth: Vec::new(), pc: ctl.pcs(), s: state.clone(), cfg: None,
+                            ev: Vec::new(), truth: Vec::new(), freq: Vec::new(), pc: ctl.pcs(), s: state.clone(), cfg: None,
                         });
                         list_pos = steps.len();
                         continue;
@@ -541,7 +541,7 @@ impl<'a> Driver<'a> {
                 op.d = advance;
                 self.emit(&StepRec {
                     t: "step".to_string(), run: self.run_no, i: step_no, actor, site: "E_Advance".to_string(), arg: advance,
-                    next: "E_Advance".to_string(), narg: 0, op, ret: RetRec { st: -1, v: -1, exp: -1, ..Default::default() }, ev: Vec::new(), truth: Vec::new(),
+                    next: "E_Advance".to_string(), narg: 0, op, ret: RetRec { st: -1, v: -1, exp: -1, ..Default::default() }, ev: Vec::new(), truth: Vec::new(), freq: Vec::new(),
                     pc: ctl.pcs(), s: state.clone(), cfg: None,
                 });
                 continue;
@@ -668,7 +668,7 @@ impl<'a> Driver<'a> {
             for entry in &state.kw { id_key.insert(entry.id, entry.k); }
             self.emit(&StepRec {
                 t: "step".to_string(), run: self.run_no, i: step_no, actor: actor.clone(), site, arg: clamp(arg), next, narg: clamp(narg),
-                op, ret, ev: events, truth, pc: ctl.pcs(), s: state.clone(), cfg: None,
+                op, ret, ev: events, truth, freq: Vec::new(), pc: ctl.pcs(), s: state.clone(), cfg: None,
             });
         }
 
@@ -676,7 +676,7 @@ impl<'a> Driver<'a> {
         self.emit(&StepRec {
             t: "end".to_string(), run: self.run_no, i: step_no + 1, actor: "env".to_string(),
             site: if hang.is_some() { "E_Hang".to_string() } else if imprecise { "E_Imprecise".to_string() } else if stuck { "E_Stuck".to_string() } else { "E_End".to_string() },
-            arg: 0, next: "".to_string(), narg: 0, op: idle_op(), ret: RetRec { st: -1, v: -1, exp: -1, ..Default::default() }, ev: Vec::new(), truth: Vec::new(),
+            arg: 0, next: "".to_string(), narg: 0, op: idle_op(), ret: RetRec { st: -1, v: -1, exp: -1, ..Default::default() }, ev: Vec::new(), truth: Vec::new(), freq: Vec::new(),
             pc: ctl.pcs(), s: state.clone(), cfg: None,
         });
         let outcome = RunOutcome { imprecise, steps: step_no as usize, hang: hang.clone(), stuck, schedule: schedule_log };
